@@ -668,6 +668,39 @@ def rule_section_tables(repo: Repo) -> List[Ob]:
         ok2 = False if False in verdicts else None if None in verdicts else True
     _emit(obs, "M-section-tables", f"{UIT}::{helper.qualname}::unconditioned-only", UIT, helper.node.lineno, helper.qualname, ok2,
           "only unconditioned draws / constants are recorded as the meaning of a variable" if ok2 else ("a conditioned assignment can be recorded as the value of a functional argument" if ok2 is False else "recording tests not recognised"))
+    # a later assignment to a variable invalidates what the tables say about it: every table is purged of the assigned variable for every
+    # assignment of the section (x = 3; x = Normal(0,1); s = Sin(x) must not resolve to Sin(3))
+    hx0 = helper.node
+    sec_loops = [l for l in walk_no_nested(hx0) if isinstance(l, ast.For) and isinstance(l.target, ast.Name) and isinstance(l.iter, ast.Name) and l.iter.id in helper.params()]
+    local_tabs = sorted(t for t in tabs if "." not in t)
+    if sec_loops and local_tabs:
+        loop = sec_loops[0]
+        el = loop.target.id
+        purged = set()
+        for x in ast.walk(loop):
+            # T.pop(elem.variable, None) / del T[elem.variable] / T.discard(...)   -- or the same through `for table in (T1, T2, T3): table.pop(...)`
+            tgt = None
+            if isinstance(x, ast.Call) and call_name(x) in ("pop", "discard") and isinstance(x.func, ast.Attribute) and x.args and src(x.args[0]) == f"{el}.variable":
+                tgt = x.func.value
+            elif isinstance(x, ast.Delete) and x.targets and isinstance(x.targets[0], ast.Subscript) and src(x.targets[0].slice) == f"{el}.variable":
+                tgt = x.targets[0].value
+            if tgt is None:
+                continue
+            if isinstance(tgt, ast.Name) and tgt.id in local_tabs:
+                purged.add(tgt.id)
+            elif isinstance(tgt, ast.Name):
+                for a in ancestors(x):
+                    if isinstance(a, ast.For) and isinstance(a.target, ast.Name) and a.target.id == tgt.id and isinstance(a.iter, (ast.Tuple, ast.List)):
+                        purged |= {e.id for e in a.iter.elts if isinstance(e, ast.Name)}
+        # the purge runs for every element: it is not nested under a type / condition test
+        keyp = f"{UIT}::{helper.qualname}::purge-on-reassignment"
+        missing_p = [t for t in local_tabs if t not in purged]
+        if not missing_p:
+            obs.append(Ob("M-section-tables", keyp, UIT, loop.lineno, helper.qualname, True, "every assignment first removes its variable from all tables"))
+        else:
+            obs.append(Ob("M-section-tables", keyp, UIT, loop.lineno, helper.qualname, False,
+                          f"nothing removes a re-assigned variable from {missing_p}: `x = 3; x = Normal(0,1); s = Sin(x)` is resolved with the first fact recorded about x "
+                          "(E(s) = sin(3)), the entry of the earlier assignment survives the later one"))
     # the table of draws holds the distribution of a *drawing* assignment under the drawn variable; a variable that merely copies a drawn
     # variable is the same random quantity, not a second draw with the same law: it belongs into the table of references
     from ..shape import expanded as _expanded
@@ -1079,7 +1112,45 @@ def mut_edge_max(repo: Repo) -> List[Mutant]:
     return out
 
 
+# ------------------------------------------------------------------ the value of a functional assignment has a placeholder of its own
+def rule_func_placeholder(repo: Repo) -> List[Ob]:
+    """FunctionalAssignment.get_moment postpones E(f(x)**k ...) until the draw of x is reached and puts a symbol in its place.  The
+    condition-false part of the same result is default**k, and the default of a conditioned assignment is the variable itself: the symbol
+    standing for the NEW value must not be the variable, or `[c]*new + [not c]*old` collapses to one symbol and the old value is replaced
+    by the functional moment as well."""
+    f = repo.function(FA, "FunctionalAssignment.get_moment")
+    key = f"{FA}::FunctionalAssignment.get_moment::placeholder"
+    selfn = f.params()[0]
+    trig = [c for c in walk_no_nested(f.node) if isinstance(c, ast.Call) and call_name(c) == "add_trigger" and len(c.args) >= 2]
+    if not trig:
+        return [inconclusive("M-func-placeholder", key, FA, f.node.lineno, f.qualname, "registration of the trigger not recognised")]
+    defs = Defs(f.node, selfn)
+    from ..shape import resolve_alias as _ra
+    t = _ra(trig[0].args[1], defs)
+    if is_self_attr(t, "variable", selfn):
+        return [Ob("M-func-placeholder", key, FA, trig[0].lineno, f.qualname, False,
+                   f"`{src(trig[0])[:70]}`: the assigned variable itself stands for the not yet computed functional value; in a conditioned assignment the kept old value is the same "
+                   "symbol, so `if c: s = Cos(x)` is analysed as the unconditional `s = Cos(x)`")]
+    if isinstance(t, ast.Call) or (isinstance(t, ast.Name)):
+        return [Ob("M-func-placeholder", key, FA, trig[0].lineno, f.qualname, True, "the postponed functional value is represented by a symbol of its own")]
+    return [inconclusive("M-func-placeholder", key, FA, trig[0].lineno, f.qualname, f"placeholder `{src(t)[:40]}` not recognised")]
+
+
+def mut_func_placeholder(repo: Repo) -> List[Mutant]:
+    def tr(tree):
+        fn = find_def(tree, "FunctionalAssignment.get_moment")
+        hit = False
+        for n in ast.walk(fn):
+            if isinstance(n, ast.Assign) and isinstance(n.targets[0], ast.Name) and n.targets[0].id == "placeholder":
+                n.value = ast.parse("self.variable").body[0].value
+                hit = True
+        return hit
+    ov = mutate_module(repo, FA, tr)
+    return [Mutant("variable-is-its-own-placeholder", ov, "fire", "placeholder", control=True)] if ov else []
+
+
 RULES = {
+    "FUNCPLACEHOLDER": Rule("M-func-placeholder", rule_func_placeholder, 1, "the postponed value of a functional assignment is represented by a symbol different from the assigned variable", mut_func_placeholder, soft=True),
     "EDGEMAX": Rule("M-edge-kind", rule_edge_max, 1, "the dependency graph keeps the strongest kind registered for an edge", mut_edge_max, soft=True),
     "IFFLAT": Rule("M-if-flatten", rule_if_flattening, 6, "if/elif/else flattening: `_old` copies for every condition variable, renamed guard copies, accumulated negations, saving assignments first, else last", mut_if_flattening, soft=True),
     "MULTIASSIGN": Rule("M-multi-assign", rule_multi_assign, 3, "single-assignment renaming: pending renamings applied first, all but the last occurrence renamed, renaming cleared at the last", mut_multi_assign, soft=True),
